@@ -201,7 +201,7 @@ class Interp:
         else:
             exc = ctx.exc
             eng.cover(f"{fkey}:exit-raise:{exc.cls}")
-            if contract.raises is not None:
+            if contract.raises is not None and not exc.tag.get("assumed_absent"):
                 ok = any(eng.classes.issub(exc.cls, c) for c in contract.raises)
                 eng.oblige(
                     st,
@@ -434,6 +434,7 @@ class Interp:
                             st.env[h.name] = pr.exc
                         self.exc_stack.append(pr.exc)
                         st.log.append(f"except {pr.exc.cls} @{h.lineno}")
+                        st.trace.append(Event("except", {"exc": pr.exc, "cls": pr.exc.cls}, self.site(h)))
                         try:
                             self.exec_stmts(st, h.body)
                         finally:
@@ -685,7 +686,8 @@ class Interp:
                 names = ["not-cancelled", "cancelled"]
             if eng.choose(st, 2, f"cancel@{label}", names) == 1:
                 st.cancelled = True
-                raise PyRaise(VExc("Cancelled", tag={"at": label}))
+                st.log.append(f"raise Cancelled at {label}")
+                raise PyRaise(VExc("Cancelled", tag={"at": label, "held": list(st.held), "shield": st.shield, "trace_len": len(st.trace)}))
 
     # ------------------------------------------------------------------ expressions
     def eval_cond(self, st, node, label="") -> bool:
@@ -1053,7 +1055,9 @@ class Interp:
             ev = Event("call:" + key, {"self": self_v, "args": args, "kwargs": kwargs, "shield": st.shield, "held": list(st.held)}, self.site(node))
             st.trace.append(ev)
             self.fire_callsite(st, ev)
-            return c.apply(self, st, self_v, args, kwargs, node)
+            res = c.apply(self, st, self_v, args, kwargs, node)
+            ev.data["result"] = res
+            return res
         if c is None and key not in eng.reg.inline_ok:
             raise Unsupported(f"{self.site(node)}: callee {key} has neither contract nor inline permission")
         return self.inline_call(st, key, self_v, args, kwargs, node)
